@@ -72,6 +72,8 @@ def parseOp (line : String) : Option Op :=
   | ["clones", a] => do some (.clones (← n? a))
   | ["unclone", a] => do some (.unclone (← n? a))
   | ["unload", a] => do some (.unload (← n? a))
+  | ["newobjr", a, b] => do some (.newobjr (← n? a) (← n? b))
+  | ["replace", a, b] => do some (.replace (← n? a) (← n? b))
   | ["fefun", a, b, c, d] => do some (.fefun (← n? a) (← n? b) (← n? c) (← n? d))
   | ["frest", w, d] => do some (.frest w (← n? d))
   | _ => none
@@ -166,6 +168,8 @@ def renderState (noAllocd : Bool) (s : St) : String :=
 
 def applies : Op → Bool
   | .newobj _ => true
+  | .newobjr _ _ => true
+  | .replace _ _ => true
   | .sweep => true
   | .clones _ => true
   | .input => true
